@@ -1,6 +1,6 @@
 import CentrifugeVerif.Model.CloseCode
 import CentrifugeVerif.Proofs.HandshakeTokens
-import CentrifugeVerif.Proofs.HandshakeKey
+import CentrifugeVerif.Proofs.HandshakeKeyShape
 /-!
 # C31 — WebSocket close codes and handshake follow the RFC
 
@@ -362,6 +362,22 @@ def ValidUpgradeH1 (r : Request) : Prop :=
   HeaderHas (r.values "Upgrade") (ascii "websocket") ∧
   HeaderHas (r.values "Sec-Websocket-Version") (ascii "13") ∧
   isValidChallengeKey (r.get "Sec-Websocket-Key") = .valid
+
+/-- **key validity**: `isValidChallengeKey` accepts exactly the strings consisting of 22 base64
+alphabet characters followed by `==`, i.e. the base64 texts of 16-byte values (RFC 6455 §4.1:
+"a base64-encoded value that, when decoded, is 16 bytes in length"); the low four bits of the 22nd
+character are not checked, which RFC 4648 §3.5 leaves to the decoder.  In particular `\r`/`\n`, which
+Go's decoder skips, cannot occur in an accepted 24-character key. -/
+theorem key_valid_iff (s : Bytes) :
+    isValidChallengeKey s = .valid ↔
+      s.length = 24 ∧ (∀ c ∈ s.take 22, isAlpha c = true) ∧ s.drop 22 = [61, 61] := valid_key_iff s
+
+/-- every key a conforming client sends (base64 of a 16-byte nonce) is accepted -/
+theorem key_of_nonce_valid (nonce : Bytes) (h : nonce.length = 16) :
+    isValidChallengeKey (encode nonce) = .valid := encoded_nonce_valid nonce h
+
+example : isValidChallengeKey (ascii "dGhlIHNhbXBsZSBub25jZQ==") = .valid := by decide
+example : isValidChallengeKey (ascii "dGhlIHNhbXBsZSBub25jZQ=\n") = .invalid := by decide
 
 /-- the `Connection`, `Upgrade` and `Sec-WebSocket-Version` values are well-formed token lists -/
 def WellFormedHeaders (r : Request) : Prop :=
